@@ -24,7 +24,20 @@ void vk_arena_reset(void) { vk_arena_top = 0; }
 #undef calloc
 
 int vk_read_punct(char *p) { return read_punct(p); }
+#ifdef NATIVE
+// natively an invalid UTF-8 sequence makes read_ident report a diagnostic: returned as -2 (= the tokenizer rejects)
+int vk_read_ident(char *p) {
+  static File f;
+  f.name = "v.c"; f.display_name = "v.c"; f.file_no = 1; f.contents = p;
+  current_file = &f;
+  volatile int r = -2;
+  TRY(r = read_ident(p));
+  if (verif_diag) { verif_diag = 0; return -2; }
+  return r;
+}
+#else
 int vk_read_ident(char *p) { return read_ident(p); }
+#endif
 
 #ifdef NATIVE
 // real tokenize() with its diagnostic exit caught: returns NULL when the tokenizer rejects the input
